@@ -324,4 +324,24 @@ def run_case(
         computed = api["compute_tax"](configuration, engine, input_data)
         return dump_computed(computed)
     except api["RP2Error"] as exc:
-        return {"ok": False, "error_type": type(exc).__name__, "error": str(exc)}
+        return {"ok": False, "error_type": type(exc).__name__, "error": str(exc), "internal": _raised_inside_rp2(exc) and not isinstance(exc, api["RP2ValueError"])}
+    except Exception as exc:  # pylint: disable=broad-except
+        if not _raised_inside_rp2(exc):
+            raise  # a bug of the harness itself, never a verdict about rp2
+        return {"ok": False, "error_type": type(exc).__name__, "error": f"{exc} [{_innermost_rp2_frame(exc)}]", "internal": True}
+
+
+def _rp2_frames(exc: BaseException) -> List[str]:
+    import traceback
+
+    frames = traceback.extract_tb(exc.__traceback__)
+    return [f"{f.filename.split('/src/rp2/')[-1]}:{f.name}:{f.lineno}" for f in frames if "/src/rp2/" in f.filename]
+
+
+def _raised_inside_rp2(exc: BaseException) -> bool:
+    return bool(_rp2_frames(exc))
+
+
+def _innermost_rp2_frame(exc: BaseException) -> str:
+    frames = _rp2_frames(exc)
+    return frames[-1] if frames else "?"
